@@ -21,7 +21,7 @@ const (
 	c12MaxSteps = 40000
 	c12MaxDepth = 8
 	c12MaxIter  = 64
-	c12InlineSz = 16 // statements: helpers of the entry's package up to this size are inlined
+	c12InlineSz = 80 // statements: helpers of the entry's package up to this size are inlined
 )
 
 type c12Ctl int
@@ -54,6 +54,17 @@ type c12Exec struct {
 	arity   []int
 	nchoice int
 
+	// generic: loops whose bound is unknown are executed for one symbolic iteration
+	generic bool
+	// inlineIf overrides the inlining policy when set
+	inlineIf func(fi *FuncInfo, args []c12Val) bool
+	nloop    int
+	memo     map[string]bool
+	// reverse explores the last alternative of every choice point first (else-branches before then-branches)
+	reverse bool
+	// snap: call records carry a snapshot of the receiver state written so far
+	snap bool
+
 	path  *c12Path
 	store map[string]c12Val
 	init  map[string]c12Val
@@ -63,7 +74,13 @@ type c12Exec struct {
 
 // c12Run explores the paths of fi on the given receiver-less argument list (receiver is implicit).
 func c12Run(p *Program, fi *FuncInfo, sink SinkFn, init map[string]c12Val, args ...c12Val) (paths []*c12Path, complete bool) {
-	ex := &c12Exec{p: p, sink: sink, entryPkg: fi.Pkg, init: init}
+	return c12RunOpt(p, fi, &c12Exec{sink: sink, init: init}, args...)
+}
+
+// c12RunOpt is c12Run with executor options taken from opt (sink, init, generic, inlineIf).
+func c12RunOpt(p *Program, fi *FuncInfo, opt *c12Exec, args ...c12Val) (paths []*c12Path, complete bool) {
+	ex := &c12Exec{p: p, sink: opt.sink, entryPkg: fi.Pkg, init: opt.init, generic: opt.generic, inlineIf: opt.inlineIf, reverse: opt.reverse, snap: opt.snap}
+	init := opt.init
 	if fi.Decl.Recv != nil && len(fi.Decl.Recv.List) == 1 {
 		ex.recvType = anchorType(fi.Pkg.TypesInfo.TypeOf(fi.Decl.Recv.List[0].Type))
 	}
@@ -75,7 +92,8 @@ func c12Run(p *Program, fi *FuncInfo, sink SinkFn, init map[string]c12Val, args 
 		for k, v := range init {
 			ex.store[k] = v
 		}
-		ex.depth, ex.steps = 0, 0
+		ex.depth, ex.steps, ex.nloop = 0, 0, 0
+		ex.memo = map[string]bool{}
 		var recv c12Val
 		if ex.recvType != "" {
 			recv = c12Ref{Path: ex.recvType}
@@ -108,6 +126,9 @@ func (ex *c12Exec) choose(n int) int {
 	if k >= n {
 		k = n - 1
 	}
+	if ex.reverse {
+		return n - 1 - k
+	}
 	return k
 }
 
@@ -127,12 +148,15 @@ func c12StmtCount(b *ast.BlockStmt) int {
 }
 
 // shouldInline: methods of the entry's receiver type, and small helpers of the entry's package.
-func (ex *c12Exec) shouldInline(fi *FuncInfo) bool {
+func (ex *c12Exec) shouldInline(fi *FuncInfo, args []c12Val) bool {
 	if fi == nil || fi.Decl.Body == nil || ex.depth >= c12MaxDepth {
 		return false
 	}
 	if fi.Pkg != ex.entryPkg {
 		return false
+	}
+	if ex.inlineIf != nil {
+		return ex.inlineIf(fi, args)
 	}
 	if fi.Decl.Recv != nil && len(fi.Decl.Recv.List) == 1 && ex.recvType != "" &&
 		anchorType(fi.Pkg.TypesInfo.TypeOf(fi.Decl.Recv.List[0].Type)) == ex.recvType {
@@ -225,15 +249,41 @@ func (ex *c12Exec) block(fr *c12Frame, list []ast.Stmt) c12Ctl {
 	return c12Next
 }
 
-// truth evaluates a condition; an unknown condition is a choice point recorded on the path.
+// truth evaluates a condition; an unknown atom is a choice point recorded on the path. Negation,
+// && and || are evaluated structurally so that every atom is recorded with its own polarity.
 func (ex *c12Exec) truth(fr *c12Frame, e ast.Expr) bool {
+	e = unparen(e)
+	switch t := e.(type) {
+	case *ast.UnaryExpr:
+		if t.Op == token.NOT {
+			return !ex.truth(fr, t.X)
+		}
+	case *ast.BinaryExpr:
+		switch t.Op {
+		case token.LAND:
+			return ex.truth(fr, t.X) && ex.truth(fr, t.Y)
+		case token.LOR:
+			return ex.truth(fr, t.X) || ex.truth(fr, t.Y)
+		}
+	}
 	v := ex.rv(ex.expr(fr, e))
 	if b, ok := v.(c12Bool); ok {
 		return b.V
 	}
+	// the same unknown asked again on this path gets the same answer
+	memoKey := ""
+	if sv, ok := v.(c12Sym); ok && sv.Hole < 0 && len(sv.Desc) > 1 {
+		memoKey = fmt.Sprintf("%s%+d", sv.Desc, sv.K)
+		if ans, seen := ex.memo[memoKey]; seen {
+			return ans
+		}
+	}
 	k := ex.choose(2)
+	if memoKey != "" {
+		ex.memo[memoKey] = k == 0
+	}
 	c := c12Cond{Expr: canonExpr(fr.info, e), Val: fmt.Sprint(k == 0), Node: e}
-	if sel, ok := unparen(e).(*ast.SelectorExpr); ok {
+	if sel, ok := e.(*ast.SelectorExpr); ok {
 		if s, ok := fr.info.Selections[sel]; ok {
 			c.Field, _ = s.Obj().(*types.Var)
 		}
@@ -376,8 +426,12 @@ func (ex *c12Exec) stmt(fr *c12Frame, s ast.Stmt) c12Ctl {
 			ex.stmt(fr, cm)
 			what = "send " + canonExpr(fr.info, cm.Chan)
 		case *ast.AssignStmt:
-			for _, l := range cm.Lhs {
-				ex.bind(fr, l, c12Sym{Hole: -1, Desc: "received " + canonExpr(fr.info, cm.Rhs[0])}, cm.Tok == token.DEFINE, cm)
+			for i, l := range cm.Lhs {
+				var v c12Val = c12Sym{Hole: -1, Desc: "received " + canonExpr(fr.info, cm.Rhs[0])}
+				if i == 0 {
+					v = ex.rv(ex.expr(fr, cm.Rhs[0]))
+				}
+				ex.bind(fr, l, v, cm.Tok == token.DEFINE, cm)
 			}
 			what = "receive " + canonExpr(fr.info, cm.Rhs[0])
 		case *ast.ExprStmt:
@@ -434,6 +488,9 @@ func (ex *c12Exec) forStmt(fr *c12Frame, st *ast.ForStmt) c12Ctl {
 		if st.Cond != nil {
 			v := ex.rv(ex.expr(fr, st.Cond))
 			b, ok := v.(c12Bool)
+			if !ok && ex.generic {
+				return ex.genericFor(fr, st, lbl)
+			}
 			if !ok {
 				ex.path.Skipped = append(ex.path.Skipped, fmt.Sprintf("loop with unknown bound %s in %s", canonExpr(fr.info, st.Cond), fr.fn))
 				return c12Next
@@ -466,6 +523,9 @@ func (ex *c12Exec) rangeStmt(fr *c12Frame, st *ast.RangeStmt) c12Ctl {
 	case c12Nil:
 		return c12Next
 	default:
+		if ref, isRef := ex.expr(fr, st.X).(c12Ref); isRef && ex.generic {
+			return ex.genericRange(fr, st, ref, lbl)
+		}
 		ex.path.Skipped = append(ex.path.Skipped, fmt.Sprintf("range over unknown %s in %s", canonExpr(fr.info, st.X), fr.fn))
 		return c12Next
 	}
@@ -482,6 +542,131 @@ func (ex *c12Exec) rangeStmt(fr *c12Frame, st *ast.RangeStmt) c12Ctl {
 		}
 	}
 	return c12Next
+}
+
+// assignedIn: local variables assigned in the loop (body, post statement).
+func c12AssignedIn(info *types.Info, nodes ...ast.Node) []types.Object {
+	var out []types.Object
+	seen := map[types.Object]bool{}
+	add := func(e ast.Expr) {
+		if id, ok := unparen(e).(*ast.Ident); ok {
+			if v, ok := info.ObjectOf(id).(*types.Var); ok && !v.IsField() && !seen[v] {
+				seen[v] = true
+				out = append(out, v)
+			}
+		}
+	}
+	for _, n := range nodes {
+		if n == nil {
+			continue
+		}
+		ast.Inspect(n, func(x ast.Node) bool {
+			switch t := x.(type) {
+			case *ast.AssignStmt:
+				if t.Tok != token.DEFINE {
+					for _, l := range t.Lhs {
+						add(l)
+					}
+				}
+			case *ast.IncDecStmt:
+				add(t.X)
+			case *ast.FuncLit:
+				return false
+			}
+			return true
+		})
+	}
+	return out
+}
+
+// genericFor executes one symbolic iteration of a loop whose condition is unknown: every local the loop
+// assigns becomes a fresh symbol, the loop is recorded, the body runs once.
+func (ex *c12Exec) genericFor(fr *c12Frame, st *ast.ForStmt, lbl string) c12Ctl {
+	ex.nloop++
+	var post ast.Node
+	if st.Post != nil {
+		post = st.Post
+	}
+	before := map[types.Object]c12Val{}
+	for _, o := range c12AssignedIn(fr.info, st.Body, post) {
+		if _, local := fr.env[o]; !local {
+			continue
+		}
+		before[o] = fr.env[o]
+		fr.env[o] = c12Sym{Hole: -1, Desc: fmt.Sprintf("loop%d:%s", ex.nloop, o.Name())}
+	}
+	rec := c12Loop{Kind: "for", Cond: canonExpr(fr.info, st.Cond)}
+	if b, ok := unparen(st.Cond).(*ast.BinaryExpr); ok {
+		l, r := ex.rv(ex.expr(fr, b.X)), ex.rv(ex.expr(fr, b.Y))
+		op := b.Op
+		if _, isLoopVar := c12LoopSym(r); isLoopVar {
+			l, r = r, l
+			switch op {
+			case token.LSS:
+				op = token.GTR
+			case token.GTR:
+				op = token.LSS
+			case token.LEQ:
+				op = token.GEQ
+			case token.GEQ:
+				op = token.LEQ
+			}
+		}
+		if name, isLoopVar := c12LoopSym(l); isLoopVar {
+			rec.Sym, rec.Op, rec.Bound = name, op.String(), r
+			for o, v := range before {
+				if s, ok := fr.env[o].(c12Sym); ok && s.Desc == name {
+					rec.Init = v
+				}
+			}
+		}
+	}
+	ex.path.Loops = append(ex.path.Loops, rec)
+	ctl := ex.block(fr, st.Body.List)
+	_, out := ex.loopCtl(fr, ctl, lbl)
+	if ctl == c12Return || ctl == c12Abort {
+		return ctl
+	}
+	return out
+}
+
+func c12LoopSym(v c12Val) (string, bool) {
+	s, ok := v.(c12Sym)
+	if ok && s.Hole < 0 && s.K == 0 && len(s.Desc) > 4 && s.Desc[:4] == "loop" {
+		return s.Desc, true
+	}
+	return "", false
+}
+
+func (ex *c12Exec) genericRange(fr *c12Frame, st *ast.RangeStmt, ref c12Ref, lbl string) c12Ctl {
+	ex.nloop++
+	key := ref.Path
+	for _, ix := range ref.Idx {
+		key += "[" + c12Show(ix) + "]"
+	}
+	name := fmt.Sprintf("loop%d:range", ex.nloop)
+	if id, ok := st.Key.(*ast.Ident); ok {
+		name = fmt.Sprintf("loop%d:%s", ex.nloop, id.Name)
+	}
+	sym := c12Sym{Hole: -1, Desc: name}
+	for _, o := range c12AssignedIn(fr.info, st.Body) {
+		if _, local := fr.env[o]; local {
+			fr.env[o] = c12Sym{Hole: -1, Desc: fmt.Sprintf("loop%d:%s", ex.nloop, o.Name())}
+		}
+	}
+	if st.Key != nil {
+		ex.bind(fr, st.Key, sym, st.Tok == token.DEFINE, st)
+	}
+	if st.Value != nil {
+		ex.bind(fr, st.Value, c12Ref{Path: ref.Path + "[]", Field: ref.Field, Idx: append(append([]c12Val{}, ref.Idx...), sym)}, st.Tok == token.DEFINE, st)
+	}
+	ex.path.Loops = append(ex.path.Loops, c12Loop{Sym: name, Kind: "range", Over: key})
+	ctl := ex.block(fr, st.Body.List)
+	_, out := ex.loopCtl(fr, ctl, lbl)
+	if ctl == c12Return || ctl == c12Abort {
+		return ctl
+	}
+	return out
 }
 
 func (ex *c12Exec) bind(fr *c12Frame, lhs ast.Expr, v c12Val, define bool, at ast.Node) {
@@ -672,6 +857,34 @@ func (ex *c12Exec) assignStmt(fr *c12Frame, st *ast.AssignStmt) {
 			}
 			ex.assign(fr, l, st.Tok, vals[i], st)
 		}
+		return
+	}
+	if ta, isTA := unparen(st.Rhs[0]).(*ast.TypeAssertExpr); isTA && len(st.Rhs) == 1 && len(st.Lhs) == 2 && ta.Type != nil {
+		// v, ok := x.(T)
+		x := ex.rv(ex.expr(fr, ta.X))
+		var dyn types.Type
+		switch t := x.(type) {
+		case *c12Struct:
+			dyn = t.Typ
+		case c12Conv:
+			dyn = t.Typ
+		}
+		want := fr.info.TypeOf(ta.Type)
+		var val, okv c12Val = c12Sym{Hole: -1, Desc: canonExpr(fr.info, ta)}, c12Sym{Hole: -1, Desc: "ok:" + canonExpr(fr.info, ta)}
+		if dyn != nil && want != nil {
+			match := types.Identical(want, dyn)
+			if iface, isI := want.Underlying().(*types.Interface); isI && !match {
+				match = types.Implements(dyn, iface)
+			}
+			okv = c12Bool{match}
+			if match {
+				val = x
+			} else {
+				val = ex.zero(want)
+			}
+		}
+		ex.bind(fr, st.Lhs[0], val, define, st)
+		ex.bind(fr, st.Lhs[1], okv, define, st)
 		return
 	}
 	if len(st.Rhs) == 1 {
